@@ -13,10 +13,16 @@ KNOWN = os.path.join(VERIF, "known_findings.json")
 
 
 def load_known():
-    if not os.path.exists(KNOWN):
-        return []
-    with open(KNOWN) as f:
-        return json.load(f).get("findings", [])
+    """known_findings.json plus every known_findings.d/*.json (same format)."""
+    out = []
+    paths = [KNOWN] if os.path.exists(KNOWN) else []
+    d = os.path.join(VERIF, "known_findings.d")
+    if os.path.isdir(d):
+        paths += sorted(os.path.join(d, f) for f in os.listdir(d) if f.endswith(".json"))
+    for p in paths:
+        with open(p) as f:
+            out += json.load(f).get("findings", [])
+    return out
 
 
 class Run:
